@@ -124,7 +124,9 @@ Theorem e2e_channel_pcm wo ch total w chunks f :
     (* the blocks themselves, for the readers area *)
     Forall (EP.block_ok (conv_si (f_si f)) bps) blocks /\ EP.short_only_last (conv_si (f_si f)) blocks /\
     FlacCodec.Ast.si_total (conv_si (f_si f)) = EP.blocks_samples blocks /\
-    FlacCodec.Ast.si_channels (conv_si (f_si f)) = ch /\ EP.blocks_samples blocks < 2 ^ 36.
+    FlacCodec.Ast.si_channels (conv_si (f_si f)) = ch /\ EP.blocks_samples blocks < 2 ^ 36 /\
+    (* C02: the strict stream validator accepts the finished file and yields the same blocks *)
+    FlacCodec.Spec.spec_stream (f_stream f) = Ok (conv_si (f_si f), blocks).
 Proof.
   intros Hwf Hnew Hchunks Hrun all Hfits Hlen36.
   pose proof (channel_new_wf p [] wo rate bps ch total w Hwf Hnew) as Hcw.
@@ -238,8 +240,17 @@ Proof.
   destruct (e2e_encoder o L md5 md5_length p rate bps wo ch t e0 (blocks ++ lastbl) e2 f He0 Hr Hfin Hok Hshape) as [Hdec Htot].
   { unfold FlacCodec.Header.MAX_FRAME_NUMBER. change (2 ^ 36 - 1 + 1) with (2 ^ 36). lia. }
   { lia. }
+  assert (Hfull : FlacCodec.File.full_but_last si (blocks ++ lastbl)).
+  { apply full_but_last_app; [|rewrite Elast; destruct (r =? 0)%nat; cbn; lia]. rewrite Ssm.
+    apply Forall_forall. intros b Hb. rewrite Forall_forall in Fsh. destruct (Fsh b Hb) as [Lb Fb'].
+    destruct b as [|x b']; [cbn in Lb; unfold n in Lb; lia|]. cbn [FlacCodec.Enc.block_len]. apply Forall_cons_iff in Fb'. destruct Fb' as [-> _]. unfold k. lia. }
+  assert (Hspec : FlacCodec.Spec.spec_stream (f_stream f) = Ok (si, blocks ++ lastbl)).
+  { apply (e2e_encoder_spec o L md5 md5_length p rate bps wo ch t e0 (blocks ++ lastbl) e2 f He0 Hr Hfin Hok Hfull).
+    - unfold FlacCodec.Header.MAX_FRAME_NUMBER. change (2 ^ 36 - 1 + 1) with (2 ^ 36). lia.
+    - lia.
+    - fold bs. lia. }
   exists (blocks ++ lastbl). split; [exact Hdec|].
-  split; [|split; [exact Hok|split; [exact Hshape|split; [exact Htot|split; [exact Ssc|lia]]]]].
+  split; [|split; [exact Hok|split; [exact Hshape|split; [exact Htot|split; [exact Ssc|split; [lia|exact Hspec]]]]]].
   rewrite stack_app. rewrite Est. f_equal. rewrite Elast.
   destruct (Nat.eqb_spec r 0) as [E0|].
   - cbn [stack fold_right]. rewrite E0 in Urest. rewrite <- Lrest. symmetry. apply all_nil. exact Urest.
